@@ -15957,8 +15957,9 @@ cgns_pequations *cgi_particle_equations_address(int local_mode, int *ier)
 /* Possible parents: CGNSBase_t, ParticleZone_t
  */
     if (strcmp(posit->label,"CGNSBase_t")==0) {
-        cgns_pequations *pequations = equations;
+        cgns_pequations *pequations = 0;
         ADDRESS4SINGLE(cgns_base, pequations, cgns_pequations, 1)
+        equations = pequations;
     }
 
     else if (strcmp(posit->label,"ParticleZone_t")==0)
